@@ -1,0 +1,158 @@
+//go:build verif
+
+package fasta
+
+// Bounded stand-ins for the round-trip and layout clauses of C01/C04 that the deductive
+// verifier does not decide (fmt/bufio/string content). Only compiled with -tags verif.
+
+import (
+	"bytes"
+	"fmt"
+	"os"
+	"strings"
+	"testing"
+
+	"github.com/biogo/biogo/alphabet"
+	"github.com/biogo/biogo/seq"
+	"github.com/biogo/biogo/seq/linear"
+)
+
+type verifRec struct{ name, desc, letters string }
+
+func verifWrite(t *testing.T, recs []verifRec, width int) []byte {
+	var buf bytes.Buffer
+	w := NewWriter(&buf, width)
+	for _, r := range recs {
+		s := linear.NewSeq(r.name, alphabet.BytesToLetters([]byte(r.letters)), alphabet.DNA)
+		s.Desc = r.desc
+		before := buf.Len()
+		n, err := w.Write(s)
+		if err != nil {
+			t.Fatalf("write: %v", err)
+		}
+		if n != buf.Len()-before {
+			t.Fatalf("Write reported %d bytes, emitted %d (record %+v width %d)", n, buf.Len()-before, r, width)
+		}
+	}
+	return buf.Bytes()
+}
+
+func verifRead(t *testing.T, data []byte) []verifRec {
+	r := NewReader(bytes.NewReader(data), linear.NewSeq("", nil, alphabet.DNA))
+	var out []verifRec
+	for i := 0; i < 1000; i++ {
+		s, err := r.Read()
+		if err != nil {
+			return out
+		}
+		l := s.(*linear.Seq)
+		out = append(out, verifRec{l.ID, l.Desc, string(alphabet.LettersToBytes(l.Seq))})
+	}
+	t.Fatalf("reader did not reach EOF")
+	return nil
+}
+
+func verifSame(a, b []verifRec) bool {
+	if len(a) != len(b) {
+		return false
+	}
+	for i := range a {
+		if a[i] != b[i] {
+			return false
+		}
+	}
+	return true
+}
+
+func verifRecords(thorough bool) [][]verifRec {
+	names := []string{"a", ">", "@b", "+"}
+	descs := []string{"", "d", "d e", "> @ +"}
+	var letters []string
+	maxLen := 4
+	if thorough {
+		maxLen = 6
+	}
+	var gen func(prefix string)
+	gen = func(prefix string) {
+		letters = append(letters, prefix)
+		if len(prefix) == maxLen {
+			return
+		}
+		for _, c := range "ac" {
+			gen(prefix + string(c))
+		}
+	}
+	gen("")
+	var single []verifRec
+	for i, l := range letters {
+		single = append(single, verifRec{names[i%len(names)], descs[(i/2)%len(descs)], l})
+	}
+	var out [][]verifRec
+	out = append(out, nil)
+	for _, r := range single {
+		out = append(out, []verifRec{r})
+	}
+	for i := 0; i+2 < len(single); i += 3 {
+		out = append(out, []verifRec{single[i], single[i+1]}, []verifRec{single[i+2], single[i], single[i+1]})
+	}
+	for _, n := range []int{4095, 4096, 4097, 8193} {
+		out = append(out, []verifRec{{"long", "boundary", strings.Repeat("acgt", n/4+1)[:n]}, {"next", "", "ac"}})
+	}
+	return out
+}
+
+// TestVerifBounded_C01_FastaRoundTrip: write at every width, read back, compare.
+func TestVerifBounded_C01_FastaRoundTrip(t *testing.T) {
+	thorough := os.Getenv("VERIF_TIER") == "thorough"
+	cases, nontrivial := 0, 0
+	widths := []int{1, 2, 3, 4, 5, 6, 7, 60, 4096, 1 << 20}
+	for _, recs := range verifRecords(thorough) {
+		for _, w := range widths {
+			cases++
+			if len(recs) > 0 {
+				nontrivial++
+			}
+			got := verifRead(t, verifWrite(t, recs, w))
+			if !verifSame(got, recs) {
+				t.Fatalf("round trip at width %d: wrote %d records %.80v, read %d records %.80v", w, len(recs), recs, len(got), got)
+			}
+		}
+	}
+	fmt.Printf("BOUNDED name=C01.fasta-roundtrip cases=%d nontrivial=%d exhaustive=true domain=%q\n", cases, nontrivial, "0..3 records, names over {a,>,@b,+}, 4 descriptions, all letter strings over {a,c} up to length 4 (6 thorough) plus lengths 4095/4096/4097/8193, widths 1..7,60,4096,2^20")
+}
+
+// TestVerifBounded_C04_FastaLayout: the records do not depend on wrapping width, blank lines,
+// trailing blanks, CRLF or the final terminator.
+func TestVerifBounded_C04_FastaLayout(t *testing.T) {
+	thorough := os.Getenv("VERIF_TIER") == "thorough"
+	cases, nontrivial := 0, 0
+	widths := []int{1, 2, 3, 5, 9, 60, 4096, 4097, 20000}
+	for _, recs := range verifRecords(thorough) {
+		if len(recs) == 0 {
+			continue
+		}
+		for _, w := range widths {
+			base := verifWrite(t, recs, w)
+			lines := strings.Split(strings.TrimSuffix(string(base), "\n"), "\n")
+			variants := []string{
+				strings.Join(lines, "\n") + "\n",
+				strings.Join(lines, "\n"),           // no final newline
+				strings.Join(lines, "\r\n") + "\r\n", // CRLF
+				strings.Join(lines, " \t\n") + "\n",  // trailing blanks
+				strings.Join(lines, "\n\n") + "\n\n", // blank lines everywhere
+				"\n\n" + strings.Join(lines, "\n"),
+			}
+			for vi, v := range variants {
+				cases++
+				nontrivial++
+				got := verifRead(t, []byte(v))
+				if !verifSame(got, recs) {
+					t.Fatalf("layout variant %d at width %d changes the records: want %.80v got %.80v", vi, w, recs, got)
+				}
+			}
+		}
+	}
+	fmt.Printf("BOUNDED name=C04.fasta-layout cases=%d nontrivial=%d exhaustive=true domain=%q\n", cases, nontrivial, "records of C01.fasta-roundtrip x widths {1,2,3,5,9,60,4096,4097,20000} x {LF, no final LF, CRLF, trailing blanks, blank lines between all lines, leading blank lines}")
+}
+
+var _ seq.Sequence = (*linear.Seq)(nil)
